@@ -620,7 +620,57 @@ func c03DupNames(w *run.Worker) {
 	}
 }
 
+// c03Counted: counting loops in their usual spellings - for c = A; c < B; c = c + 1 - with the counter a
+// fresh name or a variable of the enclosing block, bounds that are constants, another variable, an
+// expression reading the counter; bodies that leave it alone, change it, change the bound, break or
+// continue. The counter and everything else are read after the loop: the loop runs clause by clause.
+func c03Counted(w *run.Worker) {
+	I, Id := rt.Int, rt.Id
+	for _, c := range []string{"i", "x"} {
+		cv := func() *rt.Node { return Id(c) }
+		inits := []nodeFn{func() *rt.Node { return rt.Assign("=", cv(), I(0)) }, func() *rt.Node { return rt.Assign("=", cv(), I(1)) }, func() *rt.Node { return rt.Assign("=", cv(), I(5)) }}
+		conds := []nodeFn{
+			func() *rt.Node { return rt.Bin("<", cv(), I(3)) }, func() *rt.Node { return rt.Bin("<=", cv(), I(2)) }, func() *rt.Node { return rt.Bin("<", cv(), Id("b")) },
+			func() *rt.Node { return rt.Bin("<", rt.Bin("*", cv(), I(2)), I(5)) }, func() *rt.Node { return rt.Bin(">", I(3), cv()) },
+		}
+		posts := []nodeFn{
+			func() *rt.Node { return rt.Assign("=", cv(), rt.Bin("+", cv(), I(1))) }, func() *rt.Node { return rt.Assign("+=", cv(), I(1)) },
+			func() *rt.Node { return rt.Assign("=", cv(), rt.Bin("+", I(1), cv())) }, func() *rt.Node { return rt.Assign("=", cv(), rt.Bin("+", cv(), I(2))) },
+		}
+		bodies := []func() []*rt.Node{
+			func() []*rt.Node { return nil },
+			func() []*rt.Node { return []*rt.Node{rt.Call("p", cv())} },
+			func() []*rt.Node { return []*rt.Node{rt.Assign("=", cv(), rt.Bin("+", cv(), I(1))), rt.Call("p", cv())} },
+			func() []*rt.Node { return []*rt.Node{rt.Assign("=", Id("b"), rt.Bin("-", Id("b"), I(1))), rt.Call("p", cv(), Id("b"))} },
+			func() []*rt.Node { return []*rt.Node{rt.If(rt.Bin("==", cv(), I(1)), rt.Block(rt.Break())), rt.Call("p", cv())} },
+			func() []*rt.Node { return []*rt.Node{rt.If(rt.Bin("==", cv(), I(1)), rt.Block(rt.Continue())), rt.Call("p", cv())} },
+		}
+		for _, in := range inits {
+			for _, cd := range conds {
+				for _, po := range posts {
+					for _, bd := range bodies {
+						if !w.Take() {
+							continue
+						}
+						stmts := []*rt.Node{rt.Assign("=", Id("x"), I(7)), rt.Assign("=", Id("b"), I(4)),
+							rt.For(in(), cd(), po(), rt.Block(bd()...)), rt.Call("p", cv(), Id("x"), Id("b"))}
+						c03Exec(w, "counted-loop", stmts)
+						if !w.Take() {
+							continue
+						}
+						// the same loop one block down, its counter declared in the enclosing block
+						stmts = []*rt.Node{rt.Assign("=", Id("b"), I(4)), rt.Assign("=", cv(), I(9)),
+							rt.If(rt.Bool(true), rt.Block(rt.For(in(), cd(), po(), rt.Block(bd()...)), rt.Call("p", cv()))), rt.Call("p", cv(), Id("b"))}
+						c03Exec(w, "counted-loop", stmts)
+					}
+				}
+			}
+		}
+	}
+}
+
 func c03Run(w *run.Worker) {
+	c03Counted(w)
 	c03DupNames(w)
 	c03Chains(w)
 	c03Rounds(w)
